@@ -648,6 +648,11 @@ def run(ctx):
     r4.expect_min(2)
 
     # ---- 5. qmail-popup
+    r6 = rep.rule('C19.6-command-dispatch', 'R-TABLE', 'commands() on scripted lines against pop3commands[] and the qmail-popup table: only a whole verb (up to case) selects its handler - an empty line, an abbreviation or a longer word goes to the catch-all entry - so DELE, QUIT and the authentication commands act only when the client sent them')
+    for tab_ in (('qmail-pop3d', 'qmail-pop3d.c', 'pop3commands'), ('qmail-popup', 'qmail-popup.c', 'pop3commands')):
+        for inst_, v_ in sorted(libtab.commands_sites(db, rep, *tab_).items()):
+            r6.check(v_[0], tab_[0] + ':' + inst_, v_[1], v_[2], v_[3])
+    r6.expect_min(4)
     r5 = rep.rule('C19.5-popup', 'R-TABLE', 'qmail-popup: commands user, pass, apop, quit, noop + refusal default; PASS needs a preceding USER; the checkpassword protocol is user NUL, password NUL, <unique+host> NUL on descriptor 3')
     pu = db.unit('qmail-popup.c')
     tab = pu.globals.get('pop3commands')
